@@ -3,7 +3,7 @@
    hops_bytes, needs_break, frame_write, frame_enter: Spec/Framing.v (each LF becomes CR LF; one line break is added iff the output is
    non-empty and did not already end with one; ECMA-48 CR / EL 2 / CUB spelled out there independently of codes.rs). *)
 From EC Require Import Base Model.Utils Model.Editor Model.Sink Model.Writer Model.Cli Spec.Framing Spec.Session
-  Proofs.ArgsProofs Proofs.SinkOk Proofs.SafetyProofs Proofs.SessionProofs.
+  Proofs.ArgsProofs Proofs.SinkOk Proofs.SafetyProofs Proofs.SessionProofs Proofs.ViewProofs Proofs.EnterFrame.
 
 (* (W1) whatever the sequence of operations, the bytes reaching the sink are the texts with every LF turned into CR LF (writeln adds
    CR LF), and the writer's dirty flag says exactly "non-empty and not ending in a line feed" *)
@@ -25,11 +25,21 @@ Print Assumptions C13_write_frame.
 (* (W2) Enter on a line that is dispatched: CR LF after the submitted line, the handler's output, a line break iff needed, then the
    prompt in force afterwards (the handler may have changed it) at column 0 of a fresh line; flushed *)
 Theorem C13_enter_frame : forall feats cs handler, cmdset_ok cs -> forall cap hcap s a n args, SRel cap hcap s a ->
-  dispatch feats cs a = [(n, args)] ->
+  dispatch feats cs a = [(n, args)] -> cs_fail cs (acalls a) n args = None ->
   exists s' O, on_enter okT feats cs handler s = (Ok tt, s') /\ out (sk s') = out (sk s) ++ O /\
     ops_bytes O = frame_enter (handler (acalls a) n args) (last_prompt (aprompt a) (handler (acalls a) n args)) /\ last_is_flush O.
 Proof. intros feats cs handler Hcs cap hcap s a n args. exact (on_enter_bytes feats cs handler cap hcap s a n args). Qed.
 Print Assumptions C13_enter_frame.
+
+(* (W2'), every dispatched line, ALSO when the command processor writes output and then rejects the command with a parse error
+   (a hand-written CommandProcessor may do that; cs_fail): CR LF, the output, a line break iff needed, then the `error: ...` line on its
+   own line, then the prompt in force. Everything the terminal has received is what it had before plus exactly these bytes. *)
+Theorem C13_enter_frame_full : forall feats cs handler, cmdset_ok cs -> forall cap hcap s a n args, SRel cap hcap s a ->
+  dispatch feats cs a = [(n, args)] ->
+  exists s', on_enter okT feats cs handler s = (Ok tt, s') /\
+    Outs s s' (frame_enter_full (handler (acalls a) n args) (cs_fail cs (acalls a) n args) (last_prompt (aprompt a) (handler (acalls a) n args))).
+Proof. intros feats cs handler Hcs cap hcap s a n args. exact (on_enter_frame feats cs handler cap hcap s a n args). Qed.
+Print Assumptions C13_enter_frame_full.
 
 (* the framing rule itself: after the frame the prompt starts right after a line break, or the output was empty *)
 Theorem C13_prompt_on_fresh_line : forall hs, let h := hops_bytes hs in
